@@ -1,7 +1,10 @@
 package main
 
 import (
+	"fmt"
 	"go/token"
+	"go/types"
+	"sort"
 	"strings"
 
 	"golang.org/x/tools/go/ssa"
@@ -21,6 +24,8 @@ func init() {
 			{ID: "C03.R3", Floor: 8, Run: c03r3, Text: "selector siblings: a read of RelationFilter.Target used to select a table lies where a has-relation flag (node or table) is known true; in functions iterating nodes, table selection is dominated by the node's IsActive and Matches tests; tables collected from a node's list into a returned slice are known active"},
 			{ID: "C03.R4", Floor: 4, Run: c03r4, Text: "batch range provenance: at every call recording a batch range, start is the destination's Len() read before its bulk allocation (or the start index returned by the creating primitive) and end a Len() of the same table read after"},
 			{ID: "C03.R5", Floor: 3, Run: c03r5, Text: "batch range consumption: every function that asserts *batchArchetypes reads both StartIndex and EndIndex; the iteration function stores StartIndex[i] into entityIndex and EndIndex[i]-derived into entityIndexMax"},
+			{ID: "C03.R6", Floor: 4, Run: c03r6, Text: "running totals: in Query methods, a loop-carried integer that starts at 0 and is advanced by additions (count in Count/EntityAt) is never overwritten with a value not derived from itself"},
+			{ID: "C03.R7", Floor: 1, Run: c03r7, Text: "no wrapping bound: in Query methods no comparison operand is an unsigned subtraction `x - c` (c > 0) unless x ≥ c is known on the path; `idx <= end-1` with end == 0 wraps and accepts every index (fixture keeps the rule non-vacuous)"},
 		},
 	})
 }
@@ -674,4 +679,206 @@ func callsNodeMatches(fn *ssa.Function) bool {
 		}
 	}
 	return false
+}
+
+// ---------- R6: running totals ----------
+
+func c03r6(p *Prog, r *Reporter) {
+	for _, fn := range p.Funcs {
+		if typeName(recvType(fn)) != "Query" {
+			continue
+		}
+		c03r6func(p, r, fn)
+	}
+}
+
+func c03r6func(p *Prog, r *Reporter, fn *ssa.Function) {
+	name := p.FuncName(fn)
+	// web of phis connected through each other
+	var phis []*ssa.Phi
+	for _, b := range fn.Blocks {
+		for _, ins := range b.Instrs {
+			if ph, ok := ins.(*ssa.Phi); ok {
+				if bt, ok := ph.Type().Underlying().(*types.Basic); ok && bt.Info()&types.IsInteger != 0 {
+					phis = append(phis, ph)
+				}
+			}
+		}
+	}
+	// union-find by phi-to-phi edges
+	web := map[*ssa.Phi]*ssa.Phi{}
+	var find func(x *ssa.Phi) *ssa.Phi
+	find = func(x *ssa.Phi) *ssa.Phi {
+		if web[x] == nil || web[x] == x {
+			web[x] = x
+			return x
+		}
+		web[x] = find(web[x])
+		return web[x]
+	}
+	inWeb := func(v ssa.Value, root *ssa.Phi) bool {
+		ph, ok := v.(*ssa.Phi)
+		return ok && find(ph) == root
+	}
+	for _, ph := range phis {
+		for _, e := range ph.Edges {
+			if q, ok := e.(*ssa.Phi); ok && types.Identical(q.Type(), ph.Type()) {
+				web[find(ph)] = find(q)
+			}
+		}
+	}
+	// ADD of a web member also joins webs: x = phi + t
+	var derived func(v ssa.Value, root *ssa.Phi, d int) bool
+	derived = func(v ssa.Value, root *ssa.Phi, d int) bool {
+		if d > 4 {
+			return false
+		}
+		if inWeb(v, root) {
+			return true
+		}
+		if bo, ok := v.(*ssa.BinOp); ok && bo.Op == token.ADD {
+			return derived(bo.X, root, d+1) || derived(bo.Y, root, d+1)
+		}
+		return false
+	}
+	groups := map[*ssa.Phi][]*ssa.Phi{}
+	for _, ph := range phis {
+		groups[find(ph)] = append(groups[find(ph)], ph)
+	}
+	n := 0
+	var roots []*ssa.Phi
+	for root := range groups {
+		roots = append(roots, root)
+	}
+	sort.Slice(roots, func(i, j int) bool {
+		return roots[i].Pos() < roots[j].Pos() || roots[i].Pos() == roots[j].Pos() && roots[i].Name() < roots[j].Name()
+	})
+	for _, root := range roots {
+		// a running total: some edge is the constant 0, some edge is web + term with a non-constant term, no edge is web + 1 only
+		hasZero, hasSum, counterOnly := false, false, true
+		var foreign []ssa.Value
+		for _, ph := range groups[root] {
+			for _, e := range ph.Edges {
+				switch {
+				case isConstInt(e, 0):
+					hasZero = true
+				case inWeb(e, root):
+				case derived(e, root, 0):
+					hasSum = true
+					if bo, ok := e.(*ssa.BinOp); ok {
+						if _, isC := bo.Y.(*ssa.Const); !isC {
+							counterOnly = false
+						}
+					}
+				default:
+					foreign = append(foreign, e)
+				}
+			}
+		}
+		if !hasZero || !hasSum || counterOnly {
+			continue
+		}
+		n++
+		what := root.Comment
+		if what == "" {
+			what = "total"
+		}
+		construct := fmt.Sprintf("running total %s #%d", what, n)
+		if len(foreign) == 0 {
+			r.OK(name, construct, p.Pos(root.Pos()), "starts at 0 and is only advanced by adding to itself")
+		} else {
+			r.Bad(name, construct, p.Pos(root.Pos()), "the running total is overwritten with "+exprString(foreign[0])+", which is not derived from its previous value: earlier tables are dropped from the count")
+		}
+	}
+}
+
+// ---------- R7: no wrapping bound ----------
+
+func c03r7(p *Prog, r *Reporter) {
+	n := 0
+	for _, fn := range p.Funcs {
+		if typeName(recvType(fn)) != "Query" {
+			continue
+		}
+		n += c03r7func(p, r, fn)
+	}
+	// fixture: the rule must fire on the known-bad example and stay silent on the good one
+	fp, err := loadFixture()
+	if err != nil {
+		r.Anchor("checker/testdata/fixture: " + err.Error())
+		return
+	}
+	for _, fn := range fp.funcs {
+		if fn.Name() != "wrapBad" && fn.Name() != "wrapGood" {
+			continue
+		}
+		tmp := &Reporter{p: p, rule: r.rule}
+		c03r7func(p, tmp, fn)
+		fired := false
+		for _, o := range tmp.obs {
+			if o.Status == "violated" {
+				fired = true
+			}
+		}
+		if fn.Name() == "wrapBad" {
+			r.Check(fired, "fixture.wrapBad", "rule fires on `idx <= end-1`", "checker/testdata/fixture/fixture.go", "the wrapping comparison in the fixture is reported")
+		} else {
+			r.Check(!fired, "fixture.wrapGood", "rule is silent on guarded `end-1`", "checker/testdata/fixture/fixture.go", "a subtraction under `end > 0` is accepted")
+		}
+	}
+	_ = n
+}
+
+func c03r7func(p *Prog, r *Reporter, fn *ssa.Function) int {
+	name := p.FuncName(fn)
+	n := 0
+	for _, b := range fn.Blocks {
+		for _, ins := range b.Instrs {
+			cmp, ok := ins.(*ssa.BinOp)
+			if !ok {
+				continue
+			}
+			switch cmp.Op {
+			case token.LSS, token.LEQ, token.GTR, token.GEQ, token.EQL, token.NEQ:
+			default:
+				continue
+			}
+			for _, opnd := range []ssa.Value{cmp.X, cmp.Y} {
+				sub, ok := opnd.(*ssa.BinOp)
+				if !ok || sub.Op != token.SUB {
+					continue
+				}
+				bt, ok := sub.Type().Underlying().(*types.Basic)
+				if !ok || bt.Info()&types.IsUnsigned == 0 {
+					continue
+				}
+				k, ok := constInt64(sub.Y)
+				if !ok || k <= 0 {
+					continue
+				}
+				n++
+				construct := fmt.Sprintf("unsigned bound %s #%d", exprString(sub), n)
+				// x ≥ k known: a dominating edge with x > k-1, x >= k, x != 0 (k == 1)
+				x := sub.X
+				mf := &MustFlow{Fn: fn, EdgeGen: func(bb *ssa.BasicBlock, kk int) bool {
+					atom, holds, ok := edgeCond(bb, kk)
+					if !ok {
+						return false
+					}
+					rel, c, ok := boundOnEdge(atom, holds, func(v ssa.Value) bool { return v == x || structEq(v, x, 0) })
+					if !ok {
+						return false
+					}
+					return impliesAtLeast(rel, c, k) || k == 1 && impliesNonZeroUnsigned(rel, c)
+				}}
+				mf.Run()
+				if mf.Before(cmp) {
+					r.OK(name, construct, p.Pos(cmp.Pos()), fmt.Sprintf("the minuend is known to be at least %d here", k))
+				} else {
+					r.Bad(name, construct, p.Pos(cmp.Pos()), fmt.Sprintf("%s is unsigned and not known to be at least %d: for 0 the bound wraps to the maximum and the comparison accepts every index", exprString(sub.X), k))
+				}
+			}
+		}
+	}
+	return n
 }
